@@ -126,7 +126,8 @@ def holdsForWholeBody (m : Verif.Gen.LockFacts.Method) (mode : Verif.Gen.LockFac
     `BlockCache.Get/Set/setValue/remove/SetBlockHash` hold `mu` (so `committed`, `blockHash`, `prevBlockHash` and the
     pending map are never read while `commit` or `SetBlockHash` writes them), `TransactionCache.Set/Remove/Commit` hold
     `mu` exclusively and `Get` shared; `StateCache.commit` holds `lock` exclusively from its first statement (deferred
-    unlock) for every access to the state cache's fields; `StateCache.Get` takes no lock (the model's readers never block).
+    unlock) for every access to the state cache's fields, and every one of those accesses is also under the committing
+    block cache's `bc.mu` (a writer to the block cannot interleave with its commit); `StateCache.Get` takes no lock (the model's readers never block).
     The model treats every block / transaction cache operation as one atomic step on the strength of this table. -/
 theorem layer_lock_facts :
     holdsForWholeBody Verif.Gen.LockFacts.blockCache_Get .write "mu" = true ∧
@@ -140,6 +141,7 @@ theorem layer_lock_facts :
     holdsForWholeBody Verif.Gen.LockFacts.transactionCache_Get .read "mu" = true ∧
     holdsForWholeBody Verif.Gen.LockFacts.stateCache_commit .write "lock" = true ∧
     Verif.Gen.LockFacts.stateCache_commit.deferred = true ∧
+    Verif.Gen.LockFacts.stateCache_commit.accesses.all (fun a => a.sub == "bc.mu") = true ∧
     Verif.Gen.LockFacts.stateCache_Get.lock = .none := by
   decide
 
